@@ -117,6 +117,16 @@ def s_case(draw, hts=None):
     t = draw(gen.tx_model(max_in=6, max_out=6, big=False))
     nin = len(t['vin'])
     idx = draw(st.one_of(st.integers(0, nin - 1), st.integers(0, nin)))
+    if draw(st.integers(0, 5)) == 0 and nin >= 1:
+        # an input repeated VERBATIM (same outpoint, script and sequence) next to or far from the original; outputs likewise
+        j = draw(st.integers(0, nin - 1))
+        t['vin'].insert(draw(st.integers(0, nin)), list(t['vin'][j]))
+        if t['vout'] and draw(st.booleans()):
+            t['vout'].append(list(t['vout'][0]))
+        if t.get('wit') is not None:
+            t['wit'] = None
+        nin += 1
+        idx = draw(st.integers(0, nin - 1))
     c = {'tx': t, 'script': draw(s_script()).hex(), 'idx': idx, 'mutable': draw(st.sampled_from([False, True, 'mixed']))}
     if hts:
         c['hts'] = hts
@@ -133,6 +143,12 @@ def coverage_gaps(classes, tier):
 
 def t_main(ctx):
     ctx.hyp(s_case(), ctx.n(300, 3000))
+    if ctx.shard < 3:
+        nin = [258, 300, 257][ctx.shard]
+        t = {'version': 2, 'vin': [[bytes([i % 256, i // 256] + [9] * 30).hex(), i, '51', 0xffffffff - i] for i in range(nin)],
+             'vout': [[i, '51'] for i in range(nin - 1)], 'wit': None, 'locktime': 7}
+        for idx in sorted(i_ for i_ in {0, 255, 256, 257, nin - 1, nin} if i_ <= nin):
+            ctx.run({'tx': t, 'script': '76a914' + '11' * 20 + '88ac', 'idx': idx, 'mutable': bool(idx % 2), 'hts': [1, 2, 3, 0x81, 0x82, 0x83, 0]})
     if ctx.shard == 0:
         ctx.exhaustive.append('all 256 hash-type bytes for every generated (transaction, subscript, index) triple')
 
